@@ -2,7 +2,7 @@
    what a handler sees to the response it writes. The IPC layer and the message codecs are parameters:
    a handler is modelled for EVERY behaviour of IPC.ClientOffers / ProxyPolls / ProxyAnswers.
    V0 = pinned code (legacy shim panics on an unexpected error string), V1 = repaired. Executable. *)
-From Coq Require Import List NArith Bool String.
+From Coq Require Import List NArith Bool String Arith.
 From Snow Require Import Lib.Wire.
 Import ListNotations.
 Open Scope N_scope.
@@ -98,3 +98,270 @@ End Handlers.
 
 (* SnowflakeHandler.ServeHTTP: CORS preflight returns early with an empty 200 *)
 Definition serve (is_options : bool) (h : hresp) : hresp := if is_options then HResp 200 [] else h.
+
+(* ===================================================================================================
+   Refinement (C14 gaps 1-3): the handlers at the granularity of the Go statements that can fail.
+   A request as the server hands it to the mux, the http.ResponseWriter as the handlers use it, every
+   partial operation (indexing, slicing, WriteHeader's code check) as a step that may panic, the routes of
+   main() including /debug, /metrics, /prometheus, /robots.txt and the mux's own answers, and the broker
+   state threaded through the IPC calls only.
+   Library boundary: net/http request parsing (the request arrives parsed: method, URL.Path, header
+   lines), response framing, ServeMux path cleaning (the model's route function is for clean paths).
+   =================================================================================================== *)
+
+Inductive outc (A : Type) : Type := Ret (a : A) | Panicked.
+Arguments Ret {A} a.
+Arguments Panicked {A}.
+
+(* l[i]: index out of range panics *)
+Definition index_at (l : bytes) (i : nat) : outc N :=
+  match nth_error l i with Some b => Ret b | None => Panicked end.
+(* l[n:]: slice bounds out of range panics *)
+Definition slice_from (l : bytes) (n : nat) : outc bytes :=
+  if (n <=? List.length l)%nat then Ret (skipn n l) else Panicked.
+
+(* ---- the response writer ---- *)
+Record rw := { w_code : option N; w_body : bytes; w_cors : bool }.
+Definition rw_new : rw := {| w_code := None; w_body := []; w_cors := false |}.
+
+(* w.WriteHeader(code): net/http panics on a code outside 100..999 (checkWriteHeaderCode); a second call
+   is logged ("superfluous") and ignored *)
+Definition write_header (code : N) (w : rw) : outc rw :=
+  if (code <? 100) || (999 <? code) then Panicked
+  else Ret (match w_code w with
+            | Some _ => w
+            | None => {| w_code := Some code; w_body := w_body w; w_cors := w_cors w |}
+            end).
+(* w.Write(b): WriteHeader(200) first when no status was written; never panics *)
+Definition write (b : bytes) (w : rw) : rw :=
+  {| w_code := Some (match w_code w with Some c => c | None => 200 end); w_body := w_body w ++ b; w_cors := w_cors w |}.
+Definition set_cors (w : rw) : rw := {| w_code := w_code w; w_body := w_body w; w_cors := true |}.
+
+(* what the client receives once the handler returned: 200 when nothing was written; no body for HEAD *)
+Record resp := { p_status : N; p_body : bytes; p_cors : bool }.
+Definition finish (head : bool) (w : rw) : resp :=
+  {| p_status := match w_code w with Some c => c | None => 200 end;
+     p_body := if head then [] else w_body w; p_cors := w_cors w |}.
+
+(* ---- request headers: textproto canonicalisation and Header.Get ---- *)
+Definition is_lower (c : N) : bool := (97 <=? c) && (c <=? 122).
+Definition is_upper (c : N) : bool := (65 <=? c) && (c <=? 90).
+Definition is_digit (c : N) : bool := (48 <=? c) && (c <=? 57).
+(* validHeaderFieldByte: RFC 7230 token characters *)
+Definition token_byte (c : N) : bool :=
+  is_lower c || is_upper c || is_digit c ||
+  existsb (fun d => c =? d) [33; 35; 36; 37; 38; 39; 42; 43; 45; 46; 94; 95; 96; 124; 126].
+Fixpoint canon_aux (upper : bool) (l : bytes) : bytes :=
+  match l with
+  | [] => []
+  | c :: r => let c' := if upper && is_lower c then c - 32
+                        else if negb upper && is_upper c then c + 32 else c in
+              c' :: canon_aux (c' =? 45) r
+  end.
+(* textproto.CanonicalMIMEHeaderKey: a key with a non-token byte is left alone *)
+Definition canon_key (k : bytes) : bytes := if forallb token_byte k then canon_aux true k else k.
+Definition is_ows (c : N) : bool := (c =? 32) || (c =? 9).
+Fixpoint trim_left (l : bytes) : bytes :=
+  match l with c :: r => if is_ows c then trim_left r else l | [] => [] end.
+Definition trim_ows (l : bytes) : bytes := rev (trim_left (rev (trim_left l))).
+(* r.Header.Get(key) on the header lines in the order received: the first value stored under the canonical key *)
+Definition header_get (lines : list (bytes * bytes)) (key : bytes) : bytes :=
+  match find (fun kv => beq (canon_key (fst kv)) (canon_key key)) lines with
+  | Some kv => trim_ows (snd kv)
+  | None => []
+  end.
+Definition NAT_HEADER : bytes := bs "Snowflake-NAT-Type".
+
+(* ---- requests ---- *)
+Record hreq := {
+  q_method : bytes;
+  q_path : bytes;                      (* r.URL.Path *)
+  q_hdrs : list (bytes * bytes);       (* header lines, in order *)
+  q_sent : bytes }.                    (* the request body as sent *)
+
+Definition READ_LIMIT_N : N := 100000.
+(* ioutil.ReadAll(http.MaxBytesReader(w, r.Body, readLimit)) *)
+Definition read_body (sent : bytes) : readres :=
+  if READ_LIMIT_N <? N.of_nat (List.length sent) then ReadTooLarge else ReadOk sent.
+
+(* ---- what /debug, /metrics and /prometheus show of the broker state ---- *)
+Record bview := {
+  v_snowflakes : list (bytes * bytes);   (* (proxyType, natType) of every entry of idToSnowflake *)
+  v_metrics : option bytes;              (* contents of the metrics log; None: no file name or unreadable *)
+  v_prom : bytes }.                      (* text exposition of the prometheus registry *)
+
+Definition KNOWN_TYPES : list bytes := [bs "standalone"; bs "badge"; bs "webext"; bs "iptproxy"].
+Definition count_if {A} (f : A -> bool) (l : list A) : N := N.of_nat (List.length (filter f l)).
+Definition TAB : N := 9.
+Definition NL : N := 10.
+(* IPC.Debug. The per-type lines come out of a Go map iteration (any order): here in the order of KNOWN_TYPES *)
+Definition debug_body (sf : list (bytes * bytes)) : bytes :=
+  bs "current snowflakes available: " ++ dec_print (N.of_nat (List.length sf)) ++ [NL]
+  ++ flat_map (fun t => let n := count_if (fun s => beq (fst s) t) sf in
+                        if n =? 0 then [] else TAB :: t ++ bs " proxies: " ++ dec_print n ++ [NL]) KNOWN_TYPES
+  ++ TAB :: bs "unknown proxies: " ++ dec_print (count_if (fun s => negb (existsb (beq (fst s)) KNOWN_TYPES)) sf)
+  ++ NL :: bs "NAT Types available:"
+  ++ NL :: TAB :: bs "restricted: " ++ dec_print (count_if (fun s => beq (snd s) (bs "restricted")) sf)
+  ++ NL :: TAB :: bs "unrestricted: " ++ dec_print (count_if (fun s => beq (snd s) (bs "unrestricted")) sf)
+  ++ NL :: TAB :: bs "unknown: " ++ dec_print (count_if (fun s => negb (beq (snd s) (bs "restricted")) && negb (beq (snd s) (bs "unrestricted"))) sf).
+
+Definition NOT_FOUND_BODY : bytes := bs "404 page not found" ++ [NL].
+Definition ROBOTS_BODY : bytes := bs "User-agent: *" ++ [NL] ++ bs "Disallow: /" ++ [NL].
+
+(* ---- routes of main() on a clean path ---- *)
+Inductive route := RRobots | RProxy | RClient | RAnswer | RDebug | RMetrics | RProm | RAmp | RAmpRedirect | RNotFound.
+Definition AMP_ROUTE_B : bytes := bs "/amp/client/".
+Fixpoint has_prefix (pre s : bytes) : bool :=
+  match pre, s with
+  | [], _ => true
+  | a :: pre', b :: s' => (a =? b) && has_prefix pre' s'
+  | _ :: _, [] => false
+  end.
+Definition route_of (path : bytes) : route :=
+  if beq path (bs "/robots.txt") then RRobots
+  else if beq path (bs "/proxy") then RProxy
+  else if beq path (bs "/client") then RClient
+  else if beq path (bs "/answer") then RAnswer
+  else if beq path (bs "/debug") then RDebug
+  else if beq path (bs "/metrics") then RMetrics
+  else if beq path (bs "/prometheus") then RProm
+  else if has_prefix AMP_ROUTE_B path then RAmp
+  else if beq path (bs "/amp/client") then RAmpRedirect      (* subtree pattern: 301 to /amp/client/ *)
+  else RNotFound.
+
+Section Serve.
+  Variable St : Type.                                         (* the broker state (BrokerContext) *)
+  Variable view : St -> bview.
+  Variable encode_client_poll_request : bytes -> bytes -> bytes.
+  Variable decode_client_poll_response : bytes -> option cpresp.
+  Variable encode_client_error : bytes -> bytes.
+  Variable amp_decode_path : bytes -> option bytes.
+  Variable amp_armor : bytes -> bytes.
+  (* the IPC layer: the ONLY way a handler touches the broker state *)
+  Variable ipc_client ipc_proxy ipc_answer : St -> bytes -> ipcres * St.
+
+  Definition wstatus (code : N) (w : rw) (s : St) : outc rw * St := (write_header code w, s).
+
+  (* tail of clientOffers for a legacy request *)
+  Definition legacy_w (v : hversion) (response : bytes) (w : rw) : outc rw :=
+    match decode_client_poll_response response with
+    | None => write_header 500 w
+    | Some r =>
+        match r_error r with
+        | [] => Ret (write (r_answer r) w)
+        | e => if beq e STR_NO_PROXIES then write_header 503 w
+               else if beq e STR_TIMED_OUT then write_header 504 w
+               else match v with H0 => Panicked (* panic("unknown error") *) | H1 => write_header 400 w end
+        end
+    end.
+
+  Definition client_offers_w (v : hversion) (s : St) (q : hreq) (w : rw) : outc rw * St :=
+    match read_body (q_sent q) with
+    | ReadTooLarge => wstatus 400 w s
+    | ReadOk body =>
+        (* len(body) > 0 && body[0] == '{' *)
+        let first := if (0 <? List.length body)%nat then index_at body 0 else Ret 0 in
+        match first with
+        | Panicked => (Panicked, s)
+        | Ret b0 =>
+            let legacy := (0 <? List.length body)%nat && (b0 =? 123) in
+            let body' := if legacy then encode_client_poll_request body (header_get (q_hdrs q) NAT_HEADER) else body in
+            let (r, s') := ipc_client s body' in
+            match r with
+            | IpcOk response => ((if legacy then legacy_w v response w else Ret (write response w)), s')
+            | _ => wstatus 500 w s'
+            end
+        end
+    end.
+
+  Definition ipc_status_w (r : ipcres) (w : rw) : outc rw :=
+    match r with
+    | IpcOk response => Ret (write response w)
+    | IpcBadRequest => write_header 400 w
+    | IpcInternal | IpcOtherErr => write_header 500 w
+    end.
+
+  Definition post_w (ipc : St -> bytes -> ipcres * St) (s : St) (q : hreq) (w : rw) : outc rw * St :=
+    match read_body (q_sent q) with
+    | ReadTooLarge => wstatus 400 w s
+    | ReadOk body => let (r, s') := ipc s body in (ipc_status_w r w, s')
+    end.
+
+  (* ampClientOffers: strings.TrimPrefix = HasPrefix then path[len(prefix):] *)
+  Definition amp_w (s : St) (q : hreq) (w : rw) : outc rw * St :=
+    let path := q_path q in
+    let trimmed := if has_prefix AMP_ROUTE_B path then slice_from path (List.length AMP_ROUTE_B) else Ret path in
+    match trimmed with
+    | Panicked => (Panicked, s)
+    | Ret p =>
+        if beq p path then wstatus 500 w s
+        else match amp_decode_path p with
+             | Some body =>
+                 let (r, s') := ipc_client s body in
+                 match r with
+                 | IpcOk response =>
+                     (match write_header 200 w with Ret w' => Ret (write (amp_armor response) w') | Panicked => Panicked end, s')
+                 | _ => wstatus 500 w s'
+                 end
+             | None =>
+                 (match write_header 200 w with
+                  | Ret w' => Ret (write (amp_armor (encode_client_error (bs "cannot decode URL path"))) w')
+                  | Panicked => Panicked end, s)
+             end
+    end.
+
+  Definition debug_w (s : St) (w : rw) : outc rw := Ret (write (debug_body (v_snowflakes (view s))) w).
+  (* http.NotFound = http.Error(w, "404 page not found", 404): WriteHeader then the text and a newline *)
+  Definition not_found_w (w : rw) : outc rw :=
+    match write_header 404 w with Ret w' => Ret (write NOT_FOUND_BODY w') | Panicked => Panicked end.
+  Definition metrics_w (s : St) (w : rw) : outc rw :=
+    match v_metrics (view s) with
+    | None => not_found_w w
+    | Some content => Ret (match content with [] => w | _ => write content w end)   (* io.Copy of an empty file writes nothing *)
+    end.
+
+  (* SnowflakeHandler.ServeHTTP / MetricsHandler.ServeHTTP *)
+  Definition OPTIONS : bytes := bs "OPTIONS".
+  Definition cors_wrap (q : hreq) (h : rw -> outc rw * St) (s : St) : outc rw * St :=
+    let w := set_cors rw_new in
+    if beq (q_method q) OPTIONS then (Ret w, s) else h w.
+
+  Definition handle (v : hversion) (r : route) (s : St) (q : hreq) : outc rw * St :=
+    match r with
+    | RRobots => (Ret (write ROBOTS_BODY rw_new), s)
+    | RProxy => cors_wrap q (post_w ipc_proxy s q) s
+    | RClient => cors_wrap q (client_offers_w v s q) s
+    | RAnswer => cors_wrap q (post_w ipc_answer s q) s
+    | RDebug => cors_wrap q (fun w => (debug_w s w, s)) s
+    | RMetrics => cors_wrap q (fun w => (metrics_w s w, s)) s
+    | RProm => (Ret (write (v_prom (view s)) rw_new), s)
+    | RAmp => cors_wrap q (amp_w s q) s
+    | RAmpRedirect => (write_header 301 rw_new, s)
+    | RNotFound => (not_found_w rw_new, s)
+    end.
+
+  Definition HEAD : bytes := bs "HEAD".
+  Definition respond (q : hreq) (o : outc rw) : outc resp :=
+    match o with Ret w => Ret (finish (beq (q_method q) HEAD) w) | Panicked => Panicked end.
+
+  (* one request against the server *)
+  Definition serve_req (v : hversion) (s : St) (q : hreq) : outc resp * St :=
+    let (o, s') := handle v (route_of (q_path q)) s q in (respond q o, s').
+
+  (* a history of requests, one after the other *)
+  Fixpoint run_reqs (v : hversion) (s : St) (qs : list hreq) : list (hreq * outc resp) :=
+    match qs with
+    | [] => []
+    | q :: r => let (o, s') := serve_req v s q in (q, o) :: run_reqs v s' r
+    end.
+
+  (* requests that get as far as an IPC call (syntactic: route, method, size, AMP path) *)
+  Definition within_limit (q : hreq) : bool := match read_body (q_sent q) with ReadOk _ => true | ReadTooLarge => false end.
+  Definition reaches_ipc (q : hreq) : bool :=
+    negb (beq (q_method q) OPTIONS) &&
+    match route_of (q_path q) with
+    | RProxy | RClient | RAnswer => within_limit q
+    | RAmp => match amp_decode_path (skipn (List.length AMP_ROUTE_B) (q_path q)) with Some _ => true | None => false end
+    | _ => false
+    end.
+End Serve.
